@@ -200,6 +200,7 @@ class CopyFamily(Family):
         with world.override(world.CFG_G):
             self._run(prog, res)
         self._unrolled_copies(prog, res)
+        self._block_copies(prog, res)
         res.transitions = 3 * count_events(prog) + 3 + 2 * N_MUT
         res.validated = 3
         res.trivial = len(prog) < 2
@@ -258,7 +259,8 @@ class CopyFamily(Family):
         first_ids = set(map(id, c3.operations))
         un = c3.apply_modifiers()
         allops = un.operations
-        if len([o for o in allops if id(o) in first_ids]) != len(first_ids):
+        has_zero = any(e[0] == 'sub' and e[1] == 0 for e in prog)   # a block with count 0 is emptied by design
+        if not has_zero and len([o for o in allops if id(o) in first_ids]) != len(first_ids):
             res.fail('C05-repeat-lost', 'program %r: unrolling dropped original operations' % (prog,))
         twice = rows(allops, un.composite_operations)
 
@@ -327,6 +329,44 @@ def _unrolled_copies(self, prog, res):
 CopyFamily._unrolled_copies = _unrolled_copies
 
 
+def _block_copies(self, prog, res):
+    """Route 5: every block entry of the circuit (as built and after apply_modifiers) is copied explicitly with copy();
+    the stand-alone copy must list what the block lists, and must not move when the original circuit - in particular the
+    blocks in front of the copied one - grows afterwards."""
+    if not has_block(prog):
+        return
+    for unroll in (False, True):
+        world.clear_memo()
+        with world.override(world.CFG_G):
+            b = build(prog)
+            c = b.circ.apply_modifiers() if unroll else b.circ
+            c.operations   # the blocks receive their relations
+            blocks = [(i, b.ent[i]) for i, e in enumerate(prog) if e[0] == 'sub']
+            copies = []
+            for i, blk in blocks:
+                cp = blk.copy()
+                want = [r[:6] for r in struct_rows(blk)]
+                got = [r[:6] for r in struct_rows(cp)]
+                if got != want:
+                    res.fail('C05-block-copy', 'program %r (%s): explicit copy of block entry %d lists %s' % (prog, 'unrolled' if unroll else 'as built', i, first_diff(want, got)))
+                copies.append((i, cp, struct_rows(cp), round(cp.start_time, 9), round(cp.duration, 9)))
+            # grow every block of the original, then the original circuit itself
+            for i, blk in blocks:
+                blk.add(co.Reset(0))
+                blk.add(co.Reset(1))
+            c.add(co.Rx180(0))
+            world.clear_memo()
+            for i, cp, rws, st, du in copies:
+                if (struct_rows(cp), round(cp.start_time, 9), round(cp.duration, 9)) != (rws, st, du):
+                    res.fail('C05-block-copy-dependent', 'program %r (%s): the explicit copy of block entry %d reports something else after the original grew: start %r -> %r, duration %r -> %r' % (
+                        prog, 'unrolled' if unroll else 'as built', i, st, round(cp.start_time, 9), du, round(cp.duration, 9)))
+                    break
+    world.clear_memo()
+
+
+CopyFamily._block_copies = _block_copies
+
+
 def first_diff(a, b):
     if len(a) != len(b):
         return 'length %d vs %d' % (len(a), len(b))
@@ -339,9 +379,10 @@ def first_diff(a, b):
 def families(tier):
     if tier == 'quick':
         return [ClassObligations(), CopyFamily(AllClassSpace(2)), CopyFamily(AllClassSpace(3, REPRESENTATIVES[:6])),
-                CopyFamily(NestedSpace1(2, reps=(1, 2), bodies=N1_BODIES + N1_BODIES_EXTRA))]
+                CopyFamily(NestedSpace1(2, reps=(0, 1, 2), bodies=N1_BODIES + N1_BODIES_EXTRA)),
+                CopyFamily(NestedSpace1(3, reps=(0, 2), bodies=N1_BODIES[:3], atoms=[('X', 0), ('Z', 0)]))]
     return [ClassObligations(), CopyFamily(AllClassSpace(2)), CopyFamily(AllClassSpace(3, REPRESENTATIVES)),
-            CopyFamily(NestedSpace1(3, reps=(1, 2), bodies=N1_BODIES + N1_BODIES_EXTRA))]
+            CopyFamily(NestedSpace1(3, reps=(0, 1, 2), bodies=N1_BODIES + N1_BODIES_EXTRA))]
 
 
 def signature(f):
